@@ -425,9 +425,10 @@ namespace
         }
         if(close == size_t(-1)) continue;
         const bool counted = !chart_child && (name == "Vertices" || name == "Topology" || name == "Mapping");
-        // blocks the reader must see exactly once: a second <Vertices>/<Topology dim>/<Mapping dim> of the same parent, a
-        // second chart or mesh part of the same name, a second <Points> of a Bezier chart
-        const bool uniq = counted || (!chart_child && (name == "Chart" || name == "MeshPart")) || (chart_child && name == "Points");
+        // blocks whose repetition contradicts a declared count: a second <Vertices>/<Topology dim>/<Mapping dim> of the same
+        // parent (twice the declared entities), a second <Points> of a Bezier chart. A repeated chart or mesh part of the
+        // same name is malformed too, but the property does not promise rejection for it: robustness only.
+        const bool uniq = counted || (chart_child && name == "Points");
         els.push_back({i, close, name, counted && data, uniq});
       }
       return els;
